@@ -140,6 +140,12 @@ def control_table_dict(case, sp):
         d[c] = [krow[j] for krow in sp["keys"]]
     for j, c in enumerate(sp["vc"]):
         d[c] = [case["ckeys"][row[j]] for row in sp["layout"]]
+    cp = case.get("ct_colperm")
+    if cp:
+        # control tables may list their columns in any order (key columns need not come first)
+        names = list(d)
+        order = sorted(range(len(names)), key=lambda j: (cp[j % len(cp)], j))
+        d = {names[j]: d[names[j]] for j in order}
     return d
 
 
@@ -736,6 +742,15 @@ def case_st(draw, nulls=False, closed=()):
     n_rec = draw(st.sampled_from([2, 1, 0, 3, 4, 2, 3] if n_rk > 0 else [1, 0, 1, 1]))
     key_elems = [st.integers(-3, 10) if r["type"] == "i" else st.sampled_from(STR_KEYS) for r in rk]
     rec_keys = draw(st.lists(st.tuples(*key_elems), min_size=n_rec, max_size=n_rec, unique=True))
+    if n_rk == 2 and n_rec >= 2 and draw(st.sampled_from([False, True])):
+        # ties in the FIRST record key (the second one still tells the records apart)
+        first = rec_keys[0][0]
+        tied, seen = [], set()
+        for k in rec_keys:
+            if k[1] not in seen:
+                seen.add(k[1])
+                tied.append((first, k[1]))
+        rec_keys = tied
 
     def cell(t):
         if t == "f":
@@ -784,6 +799,7 @@ def case_st(draw, nulls=False, closed=()):
         "records": records,
         "perm": draw(st.lists(st.integers(0, 5), max_size=7)),
         "colperm": draw(st.one_of(st.just([]), st.lists(st.integers(0, 3), min_size=2, max_size=6))),
+        "ct_colperm": draw(st.one_of(st.just([]), st.lists(st.integers(0, 3), min_size=2, max_size=5))),
         # pivot_specification asserts that all names involved are distinct: not usable with a collision
         "via": draw(st.sampled_from(["methods", "constructor"] + ([] if collide else ["pivot_specification", "pivot_blocks"]))),
         "polars_ct": draw(st.sampled_from([False, False, True])),
